@@ -101,6 +101,9 @@ Property prop_C03(const std::string& variant) {
                          variant);
         GenOpts o;
         o.id_schemes = ids_for(need_config(c.cfg));
+        // duplicated definition tuples are legal registrations: a duplicate
+        // of D is not strictly more general than D
+        o.allow_dup_defs = true;
         c.spec = gen_spec(ch, o, size);
         return c;
     };
